@@ -34,7 +34,7 @@ namespace {
         int64_t exec( int op, int64_t uid, int64_t, int64_t& )
         {
             switch ( op ) {
-            case S_PUSH_BACK: return s->push( Val( uid )) ? 1 : 0;
+            case S_PUSH_BACK: if ( uid & 1 ) { Val t( uid ); return s->push( t ) ? 1 : 0; } return s->push( Val( uid )) ? 1 : 0;   // copy and move overloads
             case S_POP_BACK: {
                 Val v;
                 if ( !s->pop( v )) return -1;
